@@ -1,8 +1,22 @@
 ---- MODULE PlanGraph ----
-EXTENDS Integers, Sequences, FiniteSets, TLC
-CONSTANTS Procs, MaxH, Targets
-VARIABLES h, ops, actr, octr, disk, bad, taint
-vars == <<h, ops, actr, octr, disk, bad, taint>>
+(* How cubed represents lazy arrays, and why a lazy array's value can change (C10, C11, C20):
+     core/array.py  gensym: array names "array-NNN" from a per-process counter       core/plan.py gensym: op names likewise
+     core/plan.py   Plan._new / arrays_to_dag: plans are DAGs keyed by node NAME, merged with nx.compose_all (later wins)
+     core/ops.py    _store_array: storing an uncomputed array re-targets it IN PLACE (source._zarray, the plan node's
+                    target, the SHARED primitive-op object's target_array / write proxy)
+     cloudpickle    a shipped array keeps its names; the receiver's counters know nothing about them
+   Handles h[i] = [proc, name, zarr, val, nodes]; ops = heap of primitive-operation objects shared BY REFERENCE between plans;
+   disk = what is in storage.  Compute(i) runs h[i]'s plan against disk and compares the result with the value fixed when
+   the array was built (val); bad records a mismatch.
+   The design as it is violates ValueFixed; TLC shows that EVERY violation goes through one of three listed patterns
+   (ValueFixedModuloKnown):  taint "retarget-shared"  StoreLazy of an array whose name occurs in another live plan   (F8)
+                             taint "retarget-twice"   a second lazy store of an already re-targeted array           (F9)
+                             taint "name-collision"   plans merged that give one name to two different nodes        (F10)
+   hist (history variable, hidden by View) records the API calls so that behaviours can be replayed against cubed. *)
+EXTENDS Integers, Sequences, FiniteSets, TLC, Json
+CONSTANTS Procs, MaxH, Targets, MaxSteps
+VARIABLES h, ops, actr, octr, disk, bad, taint, hist
+vars == <<h, ops, actr, octr, disk, bad, taint, hist>>
 \* value tokens: <<tag, id, args>>
 Tok(tag, id, args) == <<tag, id, args>>
 Fill == Tok("fill", 0, <<>>)
@@ -10,7 +24,7 @@ Missing == Tok("missing", 0, <<>>)
 PId(p) == CHOOSE k \in 1..Cardinality(Procs) : \E f \in [1..Cardinality(Procs) -> Procs] : f[k] = p /\ \A a, b \in 1..Cardinality(Procs) : a < b => f[a] # f[b] /\ TRUE
 \* zarr refs: <<kind, a, b>>: <<"virt", pid, n>>, <<"lazy", pid, n>>, <<"user", 0, t>>
 Init == /\ h = <<>> /\ ops = <<>> /\ actr = [p \in Procs |-> 0] /\ octr = [p \in Procs |-> 0]
-        /\ disk = [z \in {} |-> Fill] /\ bad = FALSE /\ taint = {}
+        /\ disk = [z \in {} |-> Fill] /\ bad = FALSE /\ taint = {} /\ hist = <<>>
 \* disk is a sequence of <<ref, token>> pairs (last write wins)
 Has(d, z) == z \in DOMAIN d
 Get(d, z) == d[z]
@@ -20,12 +34,14 @@ OName(n) == <<"op", n>>
 Merge(f, g) == [n \in DOMAIN f \cup DOMAIN g |-> IF n \in DOMAIN g THEN g[n] ELSE f[n]]   \* nx.compose_all: later wins
 Node(kind, target, obj, out) == [kind |-> kind, target |-> target, obj |-> obj, out |-> out]
 NoRef == <<"none", 0, 0>>
+PIdOf == CHOOSE f \in [Procs -> 1..Cardinality(Procs)] : \A a, b \in Procs : a # b => f[a] # f[b]
 NewInput(p, pid) ==
   /\ Len(h) < MaxH
   /\ LET n == actr[p] + 1  o == octr[p] + 1  nm == AName(n)  z == <<"virt", pid, n>> IN
      /\ actr' = [actr EXCEPT ![p] = n] /\ octr' = [octr EXCEPT ![p] = o]
      /\ h' = Append(h, [proc |-> p, name |-> nm, zarr |-> z, val |-> Tok("in", pid * 100 + n, <<>>),
                         nodes |-> (nm :> Node("array", z, 0, nm)) @@ (OName(o) :> Node("src", NoRef, 0, nm))])
+     /\ hist' = Append(hist, [a |-> "input", p |-> pid, i |-> 0, j |-> 0, t |-> 0])
      /\ UNCHANGED <<ops, disk, bad, taint>>
 Derive(p, pid, srcs) ==
   /\ Len(h) < MaxH /\ \A i \in 1..Len(srcs) : h[srcs[i]].proc = p
@@ -37,10 +53,13 @@ Derive(p, pid, srcs) ==
      /\ ops' = Append(ops, obj)
      /\ h' = Append(h, [proc |-> p, name |-> nm, zarr |-> z, val |-> Tok("f", k, [i \in 1..Len(srcs) |-> h[srcs[i]].val]),
                         nodes |-> Merge(base, (nm :> Node("array", z, 0, nm)) @@ (OName(o) :> Node("op", NoRef, k, nm)))])
-     /\ taint' = taint \cup (IF Len(srcs) = 2 /\ (\E n1 \in DOMAIN h[srcs[1]].nodes : n1 \in DOMAIN h[srcs[2]].nodes /\ h[srcs[1]].nodes[n1] # h[srcs[2]].nodes[n1])
+     /\ taint' = taint \cup (IF \/ (Len(srcs) = 2 /\ (\E n1 \in DOMAIN h[srcs[1]].nodes : n1 \in DOMAIN h[srcs[2]].nodes /\ h[srcs[1]].nodes[n1] # h[srcs[2]].nodes[n1]))
+                                \/ nm \in DOMAIN base \/ OName(o) \in DOMAIN base      \* the fresh name is already taken by a shipped node
                              THEN {"name-collision"} ELSE {})
+     /\ hist' = Append(hist, [a |-> "derive", p |-> pid, i |-> srcs[1], j |-> IF Len(srcs) = 2 THEN srcs[2] ELSE 0, t |-> 0])
      /\ UNCHANGED <<disk, bad>>
 Ship(i, q) == /\ Len(h) < MaxH /\ h[i].proc # q /\ h' = Append(h, [h[i] EXCEPT !.proc = q])
+              /\ hist' = Append(hist, [a |-> "ship", p |-> PIdOf[q], i |-> i, j |-> 0, t |-> 0])
               /\ UNCHANGED <<ops, actr, octr, disk, bad, taint>>
 StoreLazy(i, t) ==
   /\ h[i].zarr[1] = "lazy"
@@ -49,6 +68,7 @@ StoreLazy(i, t) ==
      /\ h' = [h EXCEPT ![i].zarr = tgt, ![i].nodes = [n \in DOMAIN h[i].nodes |-> IF n = nm THEN [h[i].nodes[n] EXCEPT !.target = tgt] ELSE h[i].nodes[n]]]
      /\ ops' = [k \in 1..Len(ops) |-> IF k \in prodobjs THEN [ops[k] EXCEPT !.wtarget = tgt] ELSE ops[k]]
      /\ taint' = taint \cup (IF \E j \in 1..Len(h) : j # i /\ nm \in DOMAIN h[j].nodes THEN {"retarget-shared"} ELSE {})
+     /\ hist' = Append(hist, [a |-> "storelazy", p |-> 0, i |-> i, j |-> 0, t |-> t])
      /\ UNCHANGED <<actr, octr, disk, bad>>
 \* store onto an already re-targeted source: second target replaces the first (store([x, x], [t1, t2]))
 StoreAgain(i, t) ==
@@ -58,6 +78,7 @@ StoreAgain(i, t) ==
      /\ h' = [h EXCEPT ![i].zarr = tgt, ![i].nodes = [n \in DOMAIN h[i].nodes |-> IF n = nm THEN [h[i].nodes[n] EXCEPT !.target = tgt] ELSE h[i].nodes[n]]]
      /\ ops' = [k \in 1..Len(ops) |-> IF k \in prodobjs THEN [ops[k] EXCEPT !.wtarget = tgt] ELSE ops[k]]
      /\ taint' = taint \cup {"retarget-twice"}
+     /\ hist' = Append(hist, [a |-> "storeagain", p |-> 0, i |-> i, j |-> 0, t |-> t])
      /\ UNCHANGED <<actr, octr, disk, bad>>
 RECURSIVE RunOps(_, _, _)
 RunOps(nodes, todo, d) ==
@@ -79,15 +100,20 @@ Compute(i) ==
          d1 == RunOps(nodes, {n \in DOMAIN nodes : nodes[n].kind = "op"}, CreateAll(lazies, disk))
          res == IF h[i].zarr[1] = "virt" THEN h[i].val ELSE IF Has(d1, h[i].zarr) THEN Get(d1, h[i].zarr) ELSE Missing
      IN /\ disk' = d1 /\ bad' = (bad \/ res # h[i].val)
+        /\ hist' = Append(hist, [a |-> "compute", p |-> 0, i |-> i, j |-> 0, t |-> IF res # h[i].val THEN 1 ELSE 0])
   /\ UNCHANGED <<h, ops, actr, octr, taint>>
-PIdOf == CHOOSE f \in [Procs -> 1..Cardinality(Procs)] : \A a, b \in Procs : a # b => f[a] # f[b]
 Next == \/ \E p \in Procs : NewInput(p, PIdOf[p])
         \/ \E p \in Procs : \E i \in 1..Len(h) : Derive(p, PIdOf[p], <<i>>)
         \/ \E p \in Procs : \E i, j \in 1..Len(h) : Derive(p, PIdOf[p], <<i, j>>)
         \/ \E i \in 1..Len(h), q \in Procs : Ship(i, q)
         \/ \E i \in 1..Len(h), t \in Targets : StoreLazy(i, t) \/ StoreAgain(i, t)
         \/ \E i \in 1..Len(h) : Compute(i)
-Spec == Init /\ [][Next]_vars
+Bounded == Len(hist) < MaxSteps
+BNext == Bounded /\ Next
+Spec == Init /\ [][BNext]_vars
+View == <<h, ops, actr, octr, disk, bad, taint, Len(hist)>>
+\* behaviours for replay: printed when the history is complete (simulation mode evaluates this on every generated state)
+Emit == Len(hist) = MaxSteps => PrintT("HIST" \o ToJson([hist |-> hist, taint |-> taint, bad |-> bad]))
 ValueFixed == ~bad                                    \* C10 / C11 / C20 at the design level
 ValueFixedModuloKnown == bad => taint # {}            \* every violation goes through a listed defect pattern
 ====
